@@ -545,6 +545,13 @@ class DestHandler:
                 self._handle_fd_pdu(pdu_holder.to_file_data_pdu())
                 if self._params.acked_params.deferred_lost_segment_detection_active:
                     self._reset_nak_activity_parameters()
+            elif (
+                packet is not None
+                and pdu_holder.pdu_directive_type == DirectiveType.EOF_PDU
+                and pdu_holder.to_eof_pdu().condition_code != ConditionCode.NO_ERROR
+            ):
+                # The sender cancelled the transaction after it sent the regular EOF PDU.
+                self._handle_eof_pdu(pdu_holder.to_eof_pdu())
             self._deferred_lost_segment_handling()
         if self.states.step == TransactionStep.TRANSFER_COMPLETION:
             self._handle_transfer_completion()
@@ -948,6 +955,9 @@ class DestHandler:
 
     def _deferred_lost_segment_handling(self) -> None:
         if not self._params.acked_params.deferred_lost_segment_detection_active:
+            return
+        if self._params.completion_disposition == CompletionDisposition.CANCELED:
+            # No lost segment procedures for a cancelled transaction.
             return
         assert self._params.remote_cfg is not None
         assert self._params.fp.file_size_eof is not None
